@@ -550,7 +550,7 @@ fn col_field(col: u64, col_rel: bool, row_rel: bool) -> [u8; 2] {
 pub fn binop_ptg(op: &str) -> u8 {
     match op {
         "+" => 0x03, "-" => 0x04, "*" => 0x05, "/" => 0x06, "^" => 0x07, "&" => 0x08, "<" => 0x09,
-        "<=" => 0x0A, "=" => 0x0B, ">" => 0x0C, ">=" => 0x0D, "<>" => 0x0E, " " => 0x0F, "," => 0x10,
+        "<=" => 0x0A, "=" => 0x0B, ">=" => 0x0C, ">" => 0x0D, "<>" => 0x0E, " " => 0x0F, "," => 0x10,
         ":" => 0x11,
         other => panic!("harness: unknown binary operator {:?}", other),
     }
